@@ -991,7 +991,7 @@ theorem next_some {cc cc' : CC} {c : Char} (h : nextChar cc = (some c, cc')) : n
   simp [next, h]
 
 theorem next_none {cc cc' : CC} (h : nextChar cc = (none, cc')) :
-    next cc = if cc'.inDirectiveLine then (some '\n', { cc' with inDirectiveLine := false }) else (none, cc') := by
+    next cc = if cc'.inDirectiveLine then (some '\n', { cc' with inDirectiveLine := false, atLineStart := true }) else (none, cc') := by
   simp [next, h]
 
 /-- a run of `next` = the run of real characters, then — exactly when the state says "inside a directive
@@ -1000,8 +1000,8 @@ theorem collect_seg : ∀ (fuel : Nat) (cc : CC), (collectRaw fuel cc).1.length 
     collect fuel cc =
       if (collectRaw fuel cc).2.inDirectiveLine then
         ((collectRaw fuel cc).1 ++ '\n' ::
-            (collect (fuel - (collectRaw fuel cc).1.length - 1) { (collectRaw fuel cc).2 with inDirectiveLine := false }).1,
-          (collect (fuel - (collectRaw fuel cc).1.length - 1) { (collectRaw fuel cc).2 with inDirectiveLine := false }).2)
+            (collect (fuel - (collectRaw fuel cc).1.length - 1) { (collectRaw fuel cc).2 with inDirectiveLine := false, atLineStart := true }).1,
+          (collect (fuel - (collectRaw fuel cc).1.length - 1) { (collectRaw fuel cc).2 with inDirectiveLine := false, atLineStart := true }).2)
       else ((collectRaw fuel cc).1, (collectRaw fuel cc).2) := by
   intro fuel
   induction fuel with
@@ -1185,7 +1185,7 @@ theorem collect_seg_clean (fuel : Nat) (cc : CC) (hfin : (collectRaw fuel cc).1.
   rw [collect_seg fuel cc hfin]
   by_cases hd : (collectRaw fuel cc).2.inDirectiveLine = true
   · simp only [hd, if_true]
-    rw [collect_exhausted _ { (collectRaw fuel cc).2 with inDirectiveLine := false } hr rfl]
+    rw [collect_exhausted _ { (collectRaw fuel cc).2 with inDirectiveLine := false, atLineStart := true } hr rfl]
     exact ⟨rfl, rfl⟩
   · simp [hd]
 
@@ -1201,7 +1201,7 @@ theorem collect_seg_general (fuel : Nat) (cc : CC) (hfin : (collectRaw fuel cc).
   · simp only [hd, if_true]
     refine ⟨_, rfl, ?_, fun h => by simp at h⟩
     intro hs
-    exact collect_cell_mono _ { (collectRaw fuel cc).2 with inDirectiveLine := false } (by simpa using hs)
+    exact collect_cell_mono _ { (collectRaw fuel cc).2 with inDirectiveLine := false, atLineStart := true } (by simpa using hs)
   · simp [hd]
 
 /-- the relation "same bytes to come, same flags, same cell" between two `ChunkedChars` over chunked readers -/
@@ -1246,7 +1246,7 @@ theorem collect_indep : ∀ (fuel : Nat) (a b : CC), SameView a b →
       by_cases hx : a'.inDirectiveLine = true
       · have hy : b'.inDirectiveLine = true := by rw [← hdd]; exact hx
         simp only [hx, hy, if_true]
-        have := ih { a' with inDirectiveLine := false } { b' with inDirectiveLine := false }
+        have := ih { a' with inDirectiveLine := false, atLineStart := true } { b' with inDirectiveLine := false, atLineStart := true }
           ⟨a3, b3, by simp [a2, b2], a4, b4, by simp [fa.1, fb.1, hs], rfl, by simp [a1, b1, hc]⟩
         exact ⟨by rw [this.1], this.2⟩
       · have hy : ¬ b'.inDirectiveLine = true := by rw [← hdd]; exact hx
@@ -1263,7 +1263,7 @@ theorem collect_indep : ∀ (fuel : Nat) (a b : CC), SameView a b →
       by_cases hx : a'.inDirectiveLine = true
       · have hy : b'.inDirectiveLine = true := by rw [← hdd]; exact hx
         simp only [hx, hy, if_true]
-        have := ih { a' with inDirectiveLine := false } { b' with inDirectiveLine := false }
+        have := ih { a' with inDirectiveLine := false, atLineStart := true } { b' with inDirectiveLine := false, atLineStart := true }
           ⟨a3, b3, by simp [a2, b2], a4, b4, by simp [fa.1, fb.1, hs], rfl, by simp [a1, b1]⟩
         exact ⟨by rw [this.1], this.2⟩
       · have hy : ¬ b'.inDirectiveLine = true := by rw [← hdd]; exact hx
